@@ -50,6 +50,9 @@ pub(crate) mod c18s;
 #[cfg(osrg_rustybgp_verif_shuttle)]
 #[path = "/verif/harness/s/c01s.rs"]
 pub(crate) mod c01s;
+#[cfg(osrg_rustybgp_verif_shuttle)]
+#[path = "/verif/harness/s/c20s.rs"]
+pub(crate) mod c20s;
 
 use vcore::{BatchPlan, Check};
 
@@ -100,7 +103,8 @@ fn plan(property: &str) -> BatchPlan {
 pub(crate) fn verif_main(args: &[String]) -> i32 {
     let c18s = c18s::SubscribeInterleavings;
     let c01s = c01s::RegisterInterleavings;
-    let checks: Vec<&dyn Check> = vec![&c18s, &c01s];
+    let c20s = c20s::NhtInterleavings;
+    let checks: Vec<&dyn Check> = vec![&c18s, &c01s, &c20s];
     vcore::main_with(&checks, &|_p: &str| BatchPlan { quick_runs: 100_000, thorough_runs: 3_000_000 }, args)
 }
 
